@@ -46,6 +46,9 @@ type ProcessorNode struct {
 	swapMu  sync.Mutex
 	pending *pendingSwap
 	wakeCh  chan struct{}
+	// stopped is set (under swapMu) once Run has returned: nobody will apply a
+	// staged swap any more, so Reconfigure must fail instead of waiting.
+	stopped bool
 }
 
 // pendingSwap is a staged live-reconfigure request. done carries the outcome back
@@ -82,6 +85,24 @@ func (n *ProcessorNode) Run(ctx context.Context) error {
 	// live reconfigure applies promptly even when no records are flowing.
 	in := n.base.In()
 	wake := n.wake()
+
+	// When the run loop ends, fail a swap that is still staged and refuse
+	// later ones: only this loop applies swaps, a request staged against a
+	// node that has exited (the pipeline is stopping or has failed) would
+	// otherwise wait forever.
+	defer func() {
+		n.swapMu.Lock()
+		n.stopped = true
+		p := n.pending
+		n.pending = nil
+		n.swapMu.Unlock()
+		if p != nil {
+			if tdErr := teardownForReconfigure(ctx, p.newProcessor); tdErr != nil {
+				n.logger.Warn(ctx).Err(tdErr).Msg("could not tear down new processor after the node stopped before the live reconfigure was applied")
+			}
+			p.done <- cerrors.New("processor node stopped before the live reconfigure could be applied")
+		}
+	}()
 
 	// Teardown needs to be called even if Open() fails
 	// (to mark the processor as not running)
@@ -258,6 +279,10 @@ func (n *ProcessorNode) Reconfigure(ctx context.Context, newProcessor Processor)
 	wake := n.wake()
 
 	n.swapMu.Lock()
+	if n.stopped {
+		n.swapMu.Unlock()
+		return cerrors.New("processor node is not running, cannot reconfigure it in place")
+	}
 	if n.pending != nil {
 		n.swapMu.Unlock()
 		return cerrors.New("a processor reconfigure is already in progress")
